@@ -122,8 +122,24 @@ func scenFault(kind faultKind, pos string, windowKind string, aKind string, heal
 		time.Sleep(40 * time.Millisecond)
 	}
 	_ = a
-	e.waitCalls(3 * time.Second)
-	return e.finish("fault", params)
+	all := e.waitCalls(3 * time.Second)
+	var blocked []int
+	if !all {
+		e.mu.Lock()
+		for t, c := range e.calls {
+			if !c.Returned {
+				blocked = append(blocked, t)
+			}
+		}
+		e.mu.Unlock()
+	}
+	r := e.finish("fault", params)
+	if r.Oracle == "" && heal && len(blocked) > 0 {
+		// the link healed and a later call round-tripped, yet these calls were still waiting 3s later: only the closer
+		// released them
+		r.Oracle = fmt.Sprintf("call(s) %v were still blocked 3s after the link had healed and a later call had round-tripped on the same client (window call: %d)", blocked, b)
+	}
+	return r
 }
 
 // close: a mixed workload; the closer fires at the k-th occurrence of hook point p
